@@ -1144,19 +1144,19 @@ func JoinVsPublishBody(kind string, n int) func(x *vrt.Exec) {
 
 // FanoutScenarios are C01's.
 func FanoutScenarios(thorough bool) []runner.Scenario {
-	steps, e, sh, mcP := 6, 3, 8, 2
+	steps, e, sh, mcP, joinN := 6, 3, 8, 2, 3
 	if thorough {
-		steps, e, sh, mcP = 8, 4, 16, 3
+		steps, e, sh, mcP, joinN = 8, 4, 16, 3, 4 // the join races stay at P=2 (P=3 costs ~30 min per scenario) with one more packet
 	}
 	return []runner.Scenario{
 		{Name: fmt.Sprintf("adapters-teardown-steps%d", steps), Body: FanoutBody(steps, false), P: 0, E: e, Shards: sh, Horizon: 400000, NoFine: true},
 		{Name: fmt.Sprintf("adapters-disconnect-steps%d", steps), Body: FanoutBody(steps, true), P: 0, E: e, Shards: sh, Horizon: 400000, NoFine: true},
 		{Name: "adapters-multicast-last-member-leaves-while-another-starts", Body: MulticastRestartBody(), P: mcP, Shards: sh, Horizon: 400000, NoFine: true},
-		{Name: "adapters-join-during-publication-tcp", Body: JoinVsPublishBody("tcp", 3), P: mcP, Shards: sh, Horizon: 400000, NoFine: true},
-		{Name: "adapters-join-during-publication-udp", Body: JoinVsPublishBody("udp", 3), P: mcP, Shards: sh, Horizon: 400000, NoFine: true},
-		{Name: "adapters-join-during-publication-mc", Body: JoinVsPublishBody("mc1", 3), P: mcP, Shards: sh, Horizon: 400000, NoFine: true},
-		{Name: "adapters-join-during-publication-ws", Body: JoinVsPublishBody("ws", 3), P: mcP, Shards: sh, Horizon: 400000, NoFine: true},
-		{Name: "adapters-join-during-publication-wsp", Body: JoinVsPublishBody("wsp", 3), P: mcP, Shards: sh, Horizon: 400000, NoFine: true},
+		{Name: fmt.Sprintf("adapters-join-during-publication-tcp-n%d", joinN), Body: JoinVsPublishBody("tcp", joinN), P: 2, Shards: sh, Horizon: 400000, NoFine: true},
+		{Name: fmt.Sprintf("adapters-join-during-publication-udp-n%d", joinN), Body: JoinVsPublishBody("udp", joinN), P: 2, Shards: sh, Horizon: 400000, NoFine: true},
+		{Name: fmt.Sprintf("adapters-join-during-publication-mc-n%d", joinN), Body: JoinVsPublishBody("mc1", joinN), P: 2, Shards: sh, Horizon: 400000, NoFine: true},
+		{Name: fmt.Sprintf("adapters-join-during-publication-ws-n%d", joinN), Body: JoinVsPublishBody("ws", joinN), P: 2, Shards: sh, Horizon: 400000, NoFine: true},
+		{Name: fmt.Sprintf("adapters-join-during-publication-wsp-n%d", joinN), Body: JoinVsPublishBody("wsp", joinN), P: 2, Shards: sh, Horizon: 400000, NoFine: true},
 	}
 }
 
